@@ -21,6 +21,19 @@ def order_rules(ctx: Ctx) -> None:
     ctx.analysed(s)
     call = next((c for c in walk_local(s.node) if isinstance(c, ast.Call) and call_method(c)[1] == "sort"), None)
     key = next((k.value for k in call.keywords if k.arg == "key"), None) if call else None
+    if call is not None:
+        # the sort runs on every call: "already ordered by time" is not "in canonical order" (simultaneous events are ordered by
+        # channel, kind and pitch too, and the sorted insertion looks at the time only)
+        from ..astutil import early_exits_before, ancestors as _anc
+        st_ = call
+        while not isinstance(st_, ast.stmt):
+            st_ = st_._parent
+        exits = [x for x in early_exits_before(s.node, st_) if isinstance(x, ast.Return)]
+        cond = [a for a in _anc(call) if isinstance(a, (ast.If, ast.While, ast.For, ast.Try)) and a is not s.node]
+        ctx.check(not exits and not cond, "ORDER", "AbsoluteSequence.sort: the canonical sort runs on every call", function=s.qualname,
+                  construct="the canonical sort is skipped for some inputs",
+                  message=f"`{short(exits[0]._parent if exits and hasattr(exits[0], '_parent') else (cond[0] if cond else None), 90)}`: a list that is ordered by time "
+                          f"only keeps its simultaneous events in insertion order", file=s.file, node=exits[0] if exits else (cond[0] if cond else call))
     if isinstance(key, (ast.Name, ast.Attribute)):
         # a named key function of the class / module whose body is `return (<tuple>)`: the same thing as the lambda
         nm = key.id if isinstance(key, ast.Name) else key.attr
